@@ -534,12 +534,15 @@ def harness_env():
 
 
 def load_known(pid):
-    p = os.path.join(ROOT, "known_findings.json")
-    try:
-        data = json.load(open(p))
-    except FileNotFoundError:
-        return []
-    return [f for f in data.get("findings", []) if f.get("property") == pid]
+    """Known findings for a property: known_findings.json plus known_findings.d/<pid>.json (same format)."""
+    out = []
+    for p in (os.path.join(ROOT, "known_findings.json"), os.path.join(ROOT, "known_findings.d", pid + ".json")):
+        try:
+            data = json.load(open(p))
+        except FileNotFoundError:
+            continue
+        out.extend(f for f in data.get("findings", []) if f.get("property") == pid)
+    return out
 
 
 def repo_file(rel):
